@@ -122,3 +122,33 @@ fn k_conv_identity_sized() {
         assert!(D[2] == 1, "[conv] the value is destructed exactly once, as its original type");
     }
 }
+
+/// ptr_eq is identity of the ALLOCATION: two `Gc<dyn Trait>` to the same object are ptr_eq whatever vtable pointer their fat pointers carry
+/// (the documentation of Gc::ptr_eq: "ignores the metadata of dyn pointers"; different codegen units may emit different vtables for one type)
+#[kani::proof]
+fn k_conv_ptr_eq_ignores_metadata() {
+    trait Tr { fn id(&self) -> u8; }
+    struct A(u8); struct B(u8);
+    impl Tr for A { fn id(&self) -> u8 { 1 } }
+    impl Tr for B { fn id(&self) -> u8 { 2 } }
+    unsafe {
+        let cx = Context::new();
+        let mc = cx.mutation_context();
+        let g = Gc::new(mc, crate::static_wrapper::Static(A(7)));
+        let h = Gc::new(mc, crate::static_wrapper::Static(A(8)));
+        let p1: *const dyn Tr = &g.0 as &dyn Tr;
+        // the same data address with the vtable of another implementor (never dereferenced)
+        let other: &dyn Tr = &B(0);
+        let (_, vt_b): (usize, usize) = core::mem::transmute::<*const dyn Tr, (usize, usize)>(other as *const dyn Tr);
+        let (data, vt_a): (usize, usize) = core::mem::transmute::<*const dyn Tr, (usize, usize)>(p1);
+        kani::assume(vt_a != vt_b);
+        let p2: *const dyn Tr = core::mem::transmute::<(usize, usize), *const dyn Tr>((data, vt_b));
+        let d1: Gc<'_, dyn Tr> = Gc::from_ptr(p1);
+        let d2: Gc<'_, dyn Tr> = Gc::from_ptr(p2);
+        assert!(Gc::ptr_eq(d1, d2), "[conv] ptr_eq compares addresses, not fat-pointer metadata");
+        let ph: *const dyn Tr = &h.0 as &dyn Tr;
+        let d3: Gc<'_, dyn Tr> = Gc::from_ptr(ph);
+        assert!(!Gc::ptr_eq(d1, d3), "[conv] different objects are not ptr_eq");
+        core::mem::forget(cx);
+    }
+}
